@@ -140,6 +140,8 @@ PROPS = {
         "monitor_profile": [("ark", "C09")],
         # thorough: Miri over the racing first use of the lazily built tables (3 threads per shard)
         "miri": [("ark", "lazy", 16, 6), ("min", "curve", 4, 2)],
+        # fresh processes in which 16 threads race into their first sqrt_ratio call
+        "fresh_process_repeats": [("ark", "lazyinit", 12, 300)],
     },
     "C10": {
         "builds": ["ark", "min"], "level": "exploration", "design_ref": "DESIGN.md §3 C10",
